@@ -6,7 +6,7 @@ import YowsupVerif.Lemmas.E2ETokRecvStep
 namespace Yow.E2E
 
 section
-variable {accts : List Acct} {groups : List (Nat × List Acct)}
+variable {ex : Bool} {accts : List Acct} {groups : List (Nat × List Acct)}
 
 theorem nOf_le_way {V : View} {r : Acct} {st : Stanza} (h : st ∈ V.outb r) (x : Nat) : nOf x st ≤ wayV accts V r x := by
   unfold wayV
@@ -27,9 +27,9 @@ theorem DownShape.nonempty {id : Nat} {peer : Dest} {part : Option Acct} {im : B
   · cases l <;> rfl
 
 theorem finish_recip {L : List (Acct × Node)} {s s0 s' : Sys} {a : Acct} {cons rest : List Stanza} {c' : Client}
-    {out : List Stanza} (hn : accts.Nodup) (hT : TV accts groups L (view s))
+    {out : List Stanza} (hn : accts.Nodup) (hT : TV ex accts groups L (view s))
     (hrs : RecipStep accts groups L (view s) a cons rest c' out (view s).nextCtr)
-    (hv0 : view s0 = (view s).popOut a rest) (hv : RStep s0 s' a c' out) : TV accts groups L (view s') := by
+    (hv0 : view s0 = (view s).popOut a rest) (hv : RStep s0 s' a c' out) : TV ex accts groups L (view s') := by
   have := TV.client_step hn hT (hrs.toCStepOK hT)
   unfold RStep at hv
   rw [hv, hv0]
@@ -37,9 +37,9 @@ theorem finish_recip {L : List (Acct × Node)} {s s0 s' : Sys} {a : Acct} {cons 
 
 theorem deliver_msg_TV (hw : WFConfig accts groups) {s : Sys} {a : Acct} {rest : List Stanza} {id : Nat} {peer : Dest}
     {part : Option Acct} {im : Bool} {encs : List (Option Acct × Ct)} {pl : Option Payload}
-    (hA : AInv accts groups (abs s)) (hT : TV accts groups s.submitted (view s))
+    (hA : AInv accts groups (abs s)) (hT : TV ex accts groups s.submitted (view s))
     (hq : queueOf s.outbound a = .msg id peer part im encs pl :: rest) :
-    TV accts groups s.submitted
+    TV ex accts groups s.submitted
       (view (clientReceive { s with outbound := insert s.outbound a rest } a (.msg id peer part im encs pl))) := by
   have hmem : Stanza.msg id peer part im encs pl ∈ (view s).outb a := by
     show _ ∈ queueOf s.outbound a; rw [hq]; simp
@@ -155,7 +155,7 @@ theorem foldl_handleEnc_spec (a : Acct) (peer : Dest) (part : Option Acct) (ms :
       cases hsess
 
 section
-variable {accts : List Acct} {groups : List (Nat × List Acct)}
+variable {ex : Bool} {accts : List Acct} {groups : List (Nat × List Acct)}
 
 theorem sumMap_erase_getD {α : Type} [DecidableEq α] {l : List (α × List Stanza)} (hn : keysNodup l) (f : List Stanza → Nat)
     (hf : f [] = 0) (k : α) :
@@ -168,12 +168,12 @@ theorem sumMap_erase_getD {α : Type} [DecidableEq α] {l : List (α × List Sta
 /-- the keys of the sender of parked stanzas arrive: the stanzas are handled -/
 theorem onIqResult_pending (hw : WFConfig accts groups) {s : Sys} {a : Acct} {hd : Stanza} {rest : List Stanza} {iq : Nat}
     {got ms : List Acct} {peer : Dest} {part : Option Acct}
-    (hA : AInv accts groups (abs s)) (hT : TV accts groups s.submitted (view s)) (ha : a ∈ accts)
+    (hA : AInv accts groups (abs s)) (hT : TV ex accts groups s.submitted (view s)) (ha : a ∈ accts)
     (hq : queueOf s.outbound a = hd :: rest) (hiq : stanzaIq hd = some iq)
     (hplain : ∀ id r, downTok id hd = 0 ∧ nOf id hd = 0 ∧ rcptOut id r hd = 0 ∧ retryDownTok id r hd = 0)
     (hk0 : lookup (getClient s a).iqReg iq = some (.keysForPending peer part))
     (hgot : ∀ j, j ∈ asked (.keysForPending peer part) → j ∈ got) :
-    TV accts groups s.submitted (view (onIqResult { s with outbound := insert s.outbound a rest } a iq got ms)) := by
+    TV ex accts groups s.submitted (view (onIqResult { s with outbound := insert s.outbound a rest } a iq got ms)) := by
   have hacc : a ∈ (view { s with outbound := insert s.outbound a rest }).accounts := by
     show a ∈ (view s).accounts; rw [hT.acc]; exact ha
   have hcg : ClientGood (view s).nextCtr (getClient s a) := hT.clients a
@@ -192,7 +192,7 @@ theorem onIqResult_pending (hw : WFConfig accts groups) {s : Sys} {a : Acct} {hd
   obtain ⟨cK, hvK, hsameK, hregK, hsessK, _, hokK⟩ := processKeys_spec a got [whoOf peer part] s0 hacc0 (by
     intro j hj; apply hgot; simpa [asked] using hj)
   rw [h1.cl] at hsameK hregK
-  show TV accts groups s.submitted (view (if (processKeys s0 a [whoOf peer part] got).2.isEmpty = true
+  show TV ex accts groups s.submitted (view (if (processKeys s0 a [whoOf peer part] got).2.isEmpty = true
         then (processKeys s0 a [whoOf peer part] got).1
         else processPending (processKeys s0 a [whoOf peer part] got).1 a peer part))
   generalize hpk : processKeys s0 a [whoOf peer part] got = pk at hvK hokK
